@@ -56,7 +56,7 @@ def plan(tier, seed):
     return {
         'units': units,
         'bounds': {'alphabet': len(alpha), 'token_sequence_length': 3, 'length4_alphabet': len(REDUCED) if tier != 'quick' else 0,
-                   'corpus': len(CORPUS), 'history_depth': 3, 'contexts': ['none', 'document', 'atomic item with $v'], 'watchdog_seconds': 20},
+                   'corpus': len(CORPUS), 'history_depth': 3, 'contexts': ['none', 'element root (dummy document)', 'atomic item with $v', 'ElementTree root'], 'watchdog_seconds': 20},
         'rule': 'every token sequence up to the length bound over the alphabet, joined by single spaces (also unjoined up to length 2), '
                 'every one-token mutation of the corpus, x 4 parsers x 3 contexts; every history of parse calls of depth <= 3 over the '
                 'history alphabet on one parser; non-trivial = the input parses (it is then also evaluated)',
@@ -90,8 +90,10 @@ def contexts():
         import xml.etree.ElementTree as ET
         _DOC['root'] = ET.fromstring('<a id="1"><b>1</b><c xmlns="urn:p">x</c>t</a>')
     root = _DOC['root']
+    import xml.etree.ElementTree as ET
     return [('none', lambda: None), ('document', lambda: XPathContext(root=root, variables={'v': [1, 2]})),
-            ('atomic', lambda: XPathContext(root=None, item=1, variables={'v': 1}))]
+            ('atomic', lambda: XPathContext(root=None, item=1, variables={'v': 1})),
+            ('doctree', lambda: XPathContext(root=ET.ElementTree(root), variables={'v': [1, 2]}))]
 
 
 class Timeout(BaseException):
@@ -420,9 +422,16 @@ def run_funcs(ver, part, nparts, tier, acc):
         for k in range(lo, min(hi, 3) + 1):
             if k == 0:
                 run_input(ver, '%s()' % name, acc, 'function-matrix')
+                if ver != '1.0':
+                    # the function call as a path step: the focus is the document node, an element, an attribute, a text node
+                    for pre in ('/', '//b/', '/a/@id/', '//text()/', '/a/namespace::*/', '(1, 2)!' if ver >= '3.0' else '/a/'):
+                        run_input(ver, '%s%s()' % (pre, name), acc, 'function-matrix')
             elif k == 1:
                 for a in args:
                     run_input(ver, '%s(%s)' % (name, a), acc, 'function-matrix')
+                if ver != '1.0':
+                    for pre in ('/', '//b/', '/a/@id/', '//text()/'):
+                        run_input(ver, '%s%s(.)' % (pre, name), acc, 'function-matrix')
             elif k == 2:
                 for a in args:
                     for b in args:
